@@ -649,6 +649,9 @@ def check_case(ctx, case, collect=None):
                     import pyerrors.input.pandas as pdio
                     col = [x, x] if not isinstance(x, np.ndarray) else [list(x.ravel()), list(x.ravel())]
                     df = pd.DataFrame({'i': [1, 2], 'o': col})
+                    # the index of the frame is not part of what is written (index=False): a filtered frame (no label 0)
+                    # or a concatenated one (repeated labels) transports its cells like any other
+                    df.index = [[0, 1], [5, 7], [0, 0], [1, 0]][(case['seed'] // 3) % 4]
                     if tr == 'csv':
                         pdio.dump_df(df, os.path.join(d, 'f'), gz=case['gz'])
                         df2 = pdio.load_df(os.path.join(d, 'f'), gz=case['gz'], auto_gamma=bool(case['seed'] % 2))
